@@ -153,6 +153,8 @@ func showNums(v []any) string {
 func runC18(c *fw.Ctx) {
 	pins := [][]any{{-3, -1, -2}, {-2.5, -7, -0.5}, {-4}, {-1.25}, {math.MaxInt, 1}, {math.MaxInt, 2.5, math.MaxInt}, {math.MinInt, -1.0, math.MinInt}, {1.0, 4, 5.0}, {0, 5, 5, 10},
 		{7}, {7.5}, {0}, {0.0}, {math.MaxInt}, {math.MinInt}, {3, 3.0}, {1e300, 1e300}, {-1, 1}, {0.1, 0.2, 0.3}, {2, 0.5}, {5, -5.0, 5},
+		// one float close to the end of the float64 range next to small numbers (sum and mean stay finite in every order)
+		{1e308, 4}, {4, 1e308}, {1.7e308, 1, 2}, {-1.7e308, 3}, {1e308, 0, 0, 0}, {math.MaxFloat64, 1, -1}, {2, 8.9e307, 3.5},
 		// products at the ends of the int range (exact in float64 in every order)
 		{math.MinInt, -1}, {-1, math.MinInt}, {math.MinInt, -1, -1}, {math.MaxInt, -1}, {math.MinInt, 1}, {i64(1 << 31), i64(-(1 << 31)), 2, -1}, {math.MinInt, -1.0}, {-1, -1, math.MinInt, -1},
 		{i64(3037000500), i64(3037000500)}, {i64(-3037000500), i64(3037000500), -1}, {math.MaxInt, math.MaxInt}, {math.MinInt, math.MinInt}, {math.MinInt, 0.5, -2}}
